@@ -1,5 +1,59 @@
-import TransportVerif.Model.Nat
-import TransportVerif.Spec.Nat
+import TransportVerif.Link.Nat
+import TransportVerif.Proofs.Nat
+import TransportVerif.Props.C02
+/-
+C03 — NAT admits inbound datagrams only per its filtering rule, to the mapping owner.
+The statements below are FIXED; only the proofs may change.
+-/
 namespace TV.Props.C03
-theorem placeholder : True := trivial
+open TV TV.Nat TV.NatLink
+
+/-- the inbound half of the run theorem: every answer to an inbound datagram is the one
+    `NatSpec.allowedIn` prescribes (forwarded to the owner iff a live mapping owns the address and
+    the sender matches a recorded permission of that mapping; dropped otherwise).
+    `hports` (ports of all calls ≤ 65535, `C02.portsOk`) is necessary, see `C02.judged`. -/
+theorem inbound_judged (mode : Bool) (mb fb : Dep) (lt : Int) (mapped loc : List Nat) (n : NAT) (ops : List Op)
+    (hn : NAT.new mode mb fb lt mapped loc = some n) (hlt : 0 ≤ lt) (hm : mode = false → mapped ≠ [])
+    (hports : ∀ op ∈ ops, C02.portsOk op) :
+    ∀ o ∈ runNew n ops, ∀ a b r, o.op = .inb a b → o.out = .i r →
+      NatSpec.allowedIn (cfgOf n) o.before a b r = true := by
+  intro o ho a b r hop hout
+  have h := C02.judged mode mb fb lt mapped loc n ops hn hlt hm hports o ho
+  cases o with
+  | mk before op out =>
+    simp only at hop hout
+    subst hop hout
+    exact h
+
+/-- an inbound datagram — forwarded or refused — creates nothing, refreshes nothing and grants
+    nothing: the answers to every later call are the same as if it had never arrived.  For every
+    state reachable from a new NAT. -/
+theorem inbound_is_silent (mode : Bool) (mb fb : Dep) (lt : Int) (mapped loc : List Nat) (n : NAT)
+    (pre post : List Op) (a b : Addr)
+    (hn : NAT.new mode mb fb lt mapped loc = some n) (hlt : 0 ≤ lt) :
+    outs (step (runState (n, 0) pre) (.inb a b)).1 post = outs (runState (n, 0) pre) post :=
+  Proofs.Nat.inbound_is_silent mode mb fb lt mapped loc n pre post a b hn hlt
+
+/-- a forwarded inbound datagram goes to the address that created the mapping (`loc` of the entry
+    stored under the destination), in any state -/
+theorem inbound_to_owner (n : NAT) (now : Int) (src dst a : Addr) (h1 : n.one2one = false)
+    (h : (n.translateInbound now src dst).2 = .ok a) :
+    ∃ m, Nat.lookup n.inbound (dst.ip, dst.port) = some m ∧ a = m.loc ∧ ¬ now > m.expires ∧
+      m.filters.contains (keyOf n.filtBeh src) = true :=
+  Proofs.Nat.inbound_to_owner n now src dst a h1 h
+
+/-- 1:1 mode inbound: paired external IP → paired local IP with the port preserved; else dropped -/
+theorem one_to_one_inbound (n : NAT) (now : Int) (src dst : Addr) (h1 : n.one2one = true) :
+    (n.translateInbound now src dst) =
+      (n, match paired n.mappedIPs n.localIPs dst.ip with
+          | some ip => .ok { ip := ip, port := dst.port }
+          | none => .noAssoc) :=
+  Proofs.Nat.one_to_one_inbound n now src dst h1
+
+-- non-vacuity: address-restricted filtering admits the contacted IP on another port, refuses another IP
+example : (NAT.new false .indep .addr 30000 [0x1B010101] []).map (fun n => outs (n, 0)
+    [.out ⟨0x0A000002, 5000⟩ ⟨0x05060708, 80⟩, .inb ⟨0x05060708, 81⟩ ⟨0x1B010101, 49152⟩, .inb ⟨0x05060709, 80⟩ ⟨0x1B010101, 49152⟩,
+     .adv 30001, .inb ⟨0x05060708, 80⟩ ⟨0x1B010101, 49152⟩])
+  = some [.o (.ok ⟨0x1B010101, 49152⟩), .i (.ok ⟨0x0A000002, 5000⟩), .i .noPermission, .unit, .i .noBinding] := by decide
+
 end TV.Props.C03
